@@ -907,6 +907,14 @@ func (e *Exec) applyExtern(fn *types.Func, es *ExternSpec, f FuncV, args []Val, 
 			if sv, ok := res.(SV); ok {
 				e.assume(mkOr(mkEq(sv.T, "0"), sx(">", sx("root", sv.T), old.alloc)))
 			}
+			if sl, ok := res.(SliceV); ok {
+				// a freshly allocated backing array: register it as fresh so that writes to it need no frame
+				nb := e.allocRef("fresharr")
+				e.assume(mkEq(sl.Base, nb))
+				if e.freshRefs != nil {
+					e.freshRefs[sl.Base] = true
+				}
+			}
 		}
 		e.havocBoxed()
 	}
